@@ -42,10 +42,10 @@ SPEC = dict(
              'NftItemSaleFees, NftItemSaleData) are regenerated too (Generated/WrapSrc.lean, wrapsrc.py): constructors (wallet_id None -> 698983191, any int kept, '
              '0 included; public_key None raises: c15_src_wrapper_defaults), serialize and deserialize = Model/Wrappers.lean for all inputs (c15_src_wrappers), '
              'constructor -> serialize -> deserialize round trips on the regenerated code (c15_src_wallet_v3_roundtrip, c15_src_highload_roundtrip with old '
-             'queries, c15_src_wallet_message_roundtrip). HashUpdate (tlb/utils.py) remains hand model + correspondence.',
+             'queries, c15_src_wallet_message_roundtrip); HashUpdate of tlb/utils.py likewise (c15_src_hash_update).',
         level_note='the hand models of the message classes and of the custom wrappers are proved equal to definitions regenerated from the source on every run '
                    '(trusted: the translator pytlb.py / wrapsrc.py / msgsrc.py with its declared interface -- Builder / Slice methods = BOp / SOp of Model/Builder.lean, '
-                   'value domains, opaque HashMap calls -- validated against CPython on every change); HashUpdate, Builder / Slice, HashMap, Cell stay hand model + sampled correspondence. Dictionaries '
+                   'value domains, opaque HashMap calls -- validated against CPython on every change); Builder / Slice, HashMap, Cell stay hand model + sampled correspondence. Dictionaries '
                    '(extra currencies, library, plugins, old_queries) are optional root references (dictionary contents are C09/C10). '
                    'bits256 fields must be 32 bytes: the library does not check the length (a shorter key serialises to a cell that is '
                    'not a valid value; shown as an example, outside the property). The dictionary a HighloadWalletData cell holds is compared '
@@ -53,7 +53,7 @@ SPEC = dict(
         technique='Lean 4 proof; message classes and custom wrappers regenerated from the source (whole methods) and proved equal to the hand model; differential correspondence with the library for the rest'),
     translators=[('transaction.py MessageAny.serialize inline/reference decisions->Generated/MsgLayout.lean', arith2.regenerator('MsgLayout')),
                  ('transaction.py / account.py / block.py whole message serialize / deserialize methods->Generated/MsgSrc.lean', msgsrc.regenerate),
-                 ('custom/wallet.py / custom/nft.py constructors + whole serialize / deserialize methods->Generated/WrapSrc.lean', wrapsrc.regenerate)],
+                 ('custom/wallet.py / custom/nft.py / utils.py HashUpdate constructors + whole serialize / deserialize methods->Generated/WrapSrc.lean', wrapsrc.regenerate)],
     lean_targets=['TonVerif.Proofs.SrcMsg', 'TonVerif.Proofs.SrcMsgSer', 'TonVerif.Proofs.SrcWrap'],
     design_ref='DESIGN.md §6 C15',
     rule='boundary sweep: header kind (internal / ext-in / ext-out) x extra-currency dict (0/1/many entries) x state-init shape '
